@@ -217,9 +217,8 @@ def encrypt_json(
             recipient.sender_key = _guess_sender_key(recipient, sender_key, True)
         if not recipient.recipient_key:
             assert public_key is not None
-            key = guess_key(public_key, recipient, True)
-            key.check_use("enc")
-            recipient.recipient_key = key
+            recipient.recipient_key = guess_key(public_key, recipient, True)
+        recipient.recipient_key.check_use("enc")
 
     perform_encrypt(obj, registry)
     if isinstance(obj, GeneralJSONEncryption):
